@@ -302,6 +302,40 @@ def NoSurrogateLiterals (r : Regex) : Prop := nslUnion r = true
 instance (r : Regex) : Decidable (NoDotNoComplement r) := by unfold NoDotNoComplement; infer_instance
 instance (r : Regex) : Decidable (NoSurrogateLiterals r) := by unfold NoSurrogateLiterals; infer_instance
 
+/-! ### What the parser guarantees about a tree (hypothesis of `fix_never_crashes`) -/
+
+/-- Code points are at most U+10FFFF (Python `chr`), a range is ordered. -/
+def rngWF (r : Rng) : Bool :=
+  decide (r.start.code ≤ planeEnd) &&
+    (match r.stop with
+     | none => true
+     | some e => decide (e.code ≤ planeEnd) && decide (r.start.code ≤ e.code))
+
+mutual
+  /-- Code points ≤ U+10FFFF, ordered ranges, complemented sets with BMP ranges only. -/
+  def wfValue : Value → Bool
+    | .group u => wfUnion u
+    | .char c => decide (c.code ≤ planeEnd)
+    | .set compl rs => rs.all rngWF && (!compl || rs.all isBmpRange)
+    | .fv _ => true
+    | .sym _ => true
+  def wfTerm : Term → Bool
+    | .mk v _ => wfValue v
+  def wfTerms : List Term → Bool
+    | [] => true
+    | t :: ts => wfTerm t && wfTerms ts
+  def wfConcat : Concat → Bool
+    | .mk ts => wfTerms ts
+  def wfConcats : List Concat → Bool
+    | [] => true
+    | c :: cs => wfConcat c && wfConcats cs
+  def wfUnion : Union → Bool
+    | .mk us => wfConcats us
+end
+
+def FixWF (r : Regex) : Prop := wfUnion r = true
+instance (r : Regex) : Decidable (FixWF r) := by unfold FixWF; infer_instance
+
 end AasVerif.Fix16
 
 /-- The name used in DESIGN.md. -/
